@@ -99,6 +99,7 @@ impl Real {
                 Item::Uni { proof: prove_uni(&self.eng.cfg, air, 3, off.parse().ok()?), air }
             }
             ["batch", c] => Item::Batch(prove_dummy(&self.eng.cfg, c.parse().ok()?)),
+            ["batchlr", c] => Item::Batch(crate::c17_cfg::prove_one_alu(&self.eng.cfg, c.parse().ok()?)),
             _ => return None,
         };
         self.eng.items.push(item);
@@ -257,6 +258,15 @@ pub fn quick_histories() -> Vec<(&'static str, Vec<RealStep>)> {
                 st(Kind::Agg, In::Out(1), Some(b("uni:add:0")), 0, Some(0), None),
             ],
         ),
+        // a lane-reduced base proof (one ALU op, four lanes: the proof's own common data differs from
+        // the caller's preparation data) chained into a layer and aggregated with a plain one
+        (
+            "chain-from-lane-reduced-base",
+            vec![
+                st(Kind::Next, b("batchlr:9"), None, 0, None, None),
+                st(Kind::Agg, In::Out(0), Some(b("batchlr:9")), 0, None, None),
+            ],
+        ),
         // batch + batch with a change of params between the two calls on one cache variable
         (
             "agg-batch-batch-params-change",
@@ -269,7 +279,7 @@ pub fn quick_histories() -> Vec<(&'static str, Vec<RealStep>)> {
 }
 
 fn gen_real(rng: &mut Rng) -> Vec<RealStep> {
-    let bases = ["uni:xx:0", "uni:xx:1", "uni:xy:0", "uni:xy:1", "uni:add:0", "uni:xyy:0", "batch:11", "batch:12"];
+    let bases = ["uni:xx:0", "uni:xx:1", "uni:xy:0", "uni:xy:1", "uni:add:0", "uni:xyy:0", "batch:11", "batch:12", "batchlr:9"];
     let n = rng.range(2, 3);
     let mut steps: Vec<RealStep> = vec![];
     for i in 0..n {
